@@ -151,7 +151,7 @@ def interpret(desc, v, tok, forced=frozenset()):
             return (tag, v)
         if 'fail' in acts:
             cls = next((arg for a, arg in plan_for(tok, tag) if a == 'fail'), None)
-            if cls:
+            if cls and not isinstance(cls, int):
                 from .targets import handler_exc_class
 
                 return ('EXC', handler_exc_class(cls).__name__, (tag, t))
